@@ -438,8 +438,14 @@ type framedReader struct {
 	other   int         // writes through Encode / EncodeElement
 }
 
+var errBoom = fmt.Errorf("reader failed")
+
 func (f *framedReader) Token() (xml.Token, error) {
 	if f.i >= len(f.toks) {
+		if f.framing == "fail" {
+			// a reader whose connection broke: the same error on every further call
+			return nil, errBoom
+		}
 		return nil, io.EOF
 	}
 	t := f.toks[f.i]
@@ -1908,6 +1914,18 @@ func (c *ctx) replay(lines []string) error {
 			}
 			sx, _ := common.UnHex(strings.TrimPrefix(lines[i+1], "#elem "))
 			c.elem(f[2], unfield(f[3]), ps, string(sx), decInts(f[6]), "replay")
+		case "cut":
+			if len(f) != 8 || i+1 >= len(lines) || !strings.HasPrefix(lines[i+1], "#stanza ") {
+				continue
+			}
+			ps, err := decPats(f[4])
+			if err != nil {
+				return err
+			}
+			sx, _ := common.UnHex(strings.TrimPrefix(lines[i+1], "#stanza "))
+			var cut int
+			fmt.Sscan(f[7], &cut)
+			c.cutDispatch(ps, string(sx), decInts(f[6]), cut, nil, "replay")
 		case "overlap":
 			if len(f) != 11 || i+2 >= len(lines) || !strings.HasPrefix(lines[i+1], "#a ") || !strings.HasPrefix(lines[i+2], "#b ") {
 				continue
